@@ -154,6 +154,8 @@ func (m *module) load(proj *Project) (starlark.StringDict, error) {
 
 	t, builtins, err := m.env(proj)
 	if err != nil {
+		// Publish the failure: other goroutines may already be waiting for this module.
+		m.done(nil, err)
 		proj.events.ModuleLoadFailed(m.label, err)
 		return nil, err
 	}
